@@ -137,6 +137,7 @@ struct FaultPlan {
   std::map<int64_t, int> io_errors;                // syscall # -> errno, if failable
   // buggify: probability (per mille) of each legal-but-unusual behaviour
   int pm_eintr = 0, pm_short_read = 0, pm_spurious_wake = 0, pm_eagain_token = 0;
+  int pm_slow_wake = 0;   // ninja is not scheduled at once when its ppoll is over: more commands may have ended by the time it looks
   int stream = 0;                  // tape stream for schedule/buggify coins
 };
 
